@@ -78,8 +78,10 @@ def check(index, ctx):
                 for e in _events(r, "rng"):
                     ctx.require(bool(e.get("torch_global")), "R3", f"{name}: {e['function'].split('.')[-1]}: {e['text']}",
                                 f"randomness from torch's global generator ({e.get('fn')})", f"randomness source {e.get('fn')} is not governed by torch.manual_seed", e["loc"])
+                # the answer this path assumes to "is every entry of the input finite?" (None: the question is not asked as a branch)
+                fin = [bool(e["outcome"]) ^ bool(e.get("key_neg")) for e in _events(r, "decision") if e.get("key") == "allfinite?matrix" and e.get("outcome") is not None]
                 if r.kind == "raise":
-                    if r.exc.exc_name == "ValueError" and _events(r, "finite_check") and not _events(r, "first_value_use"):
+                    if r.exc.exc_name == "ValueError" and _events(r, "finite_check") and not _events(r, "first_value_use") and fin[-1:] != [True]:
                         raise_after_finite = True
                     continue
                 v = r.value
@@ -95,6 +97,9 @@ def check(index, ctx):
                     detail = "no finiteness test of the input on this path" + (f"; values first used at {r.events[vi]['loc']} `{r.events[vi]['text']}`" if vi is not None else "")
                 elif not ok:
                     detail = f"values used at {r.events[vi]['loc']} `{r.events[vi]['text']}` before the finiteness test"
+                if ok and fin and not fin[0]:
+                    ok = False
+                    detail = f"the path [{r.describe_path()}] goes on to compute a result although the finiteness test answered that the input has a non-finite entry (inverted test)"
                 ctx.require(ok, "R1b", f"{name}({run.label}).forward path[{r.describe_path()}]" if ok else f"{name}.forward: finiteness test", detail, detail, cls.loc())
                 # R4 dtype
                 ctx.require(v.dtype == "M", "R4", pk if v.dtype == "M" else f"{name}({run.label}).forward dtype", f"returns dtype tag {v.dtype}",
